@@ -148,6 +148,28 @@ struct Spec {
 
 fn gen_spec(seed: u64) -> Spec {
 	let mut r = Rng::new(seed);
+	if r.chance(1, 5) {
+		// burst: many calls executing on one WebSocket connection with a tiny message buffer are all released at the same
+		// instant after the stop (answered-but-unsent under back-pressure)
+		let n = 3 + r.usize(6);
+		let stop_at = 3 + r.below(5);
+		let same_release = if r.bool() { None } else { Some(stop_at + 1 + r.below(5)) };
+		let calls = (0..n).map(|_| CallSpec { conn: 0, method: "work", send_at: r.below(3), release_at: same_release }).collect();
+		let mut order = vec![0, 1, 2];
+		r.shuffle(&mut order);
+		return Spec {
+			seed,
+			buffer: 1,
+			conns: vec![ConnKind::Ws],
+			subs_on: if r.chance(1, 4) { vec![0] } else { vec![] },
+			calls,
+			stop_at,
+			second_stop: r.bool(),
+			handle_drop_order: order,
+			disconnect_at: vec![None],
+			delays: r.chance(2, 3),
+		};
+	}
 	let n_conns = r.usize(4);
 	let conns: Vec<ConnKind> = (0..n_conns).map(|_| if r.chance(2, 3) { ConnKind::Ws } else { ConnKind::Http }).collect();
 	let horizon = 20u64;
